@@ -21,6 +21,7 @@ type ReplayCase struct {
 	Name    string              `json:"name"`
 	Fn      string              `json:"fn"`
 	Vals    map[string][]uint64 `json:"vals"`
+	Strs    map[string][]string `json:"strs"`
 	Params  map[string]int64    `json:"params"`
 	Repeat  int                 `json:"repeat"`            // >1: statistical replay for schedule/select-dependent cases
 	WantID  string              `json:"want_id,omitempty"` // stop repeating once this failure id shows up
@@ -95,6 +96,61 @@ func goLit(vals map[string][]uint64) string {
 	return sb.String()
 }
 
+func strsLit(strs map[string][]string) string {
+	var keys []string
+	for k := range strs {
+		keys = append(keys, k)
+	}
+	sort.Strings(keys)
+	var sb strings.Builder
+	sb.WriteString("map[string][]string{")
+	for _, k := range keys {
+		fmt.Fprintf(&sb, "%q: {", k)
+		for i, v := range strs[k] {
+			if i > 0 {
+				sb.WriteString(",")
+			}
+			fmt.Fprintf(&sb, "%q", v)
+		}
+		sb.WriteString("}, ")
+	}
+	sb.WriteString("}")
+	return sb.String()
+}
+
+// strModelToVals turns {"tag#k": s} into tag -> ordered strings.
+func strModelToVals(model map[string]string) map[string][]string {
+	type kv struct {
+		k int
+		v string
+	}
+	tmp := map[string][]kv{}
+	for name, v := range model {
+		i := strings.LastIndex(name, "#")
+		if i < 0 {
+			continue
+		}
+		k, err := strconv.Atoi(name[i+1:])
+		if err != nil {
+			continue
+		}
+		tmp[name[:i]] = append(tmp[name[:i]], kv{k, v})
+	}
+	out := map[string][]string{}
+	for tag, l := range tmp {
+		sort.Slice(l, func(i, j int) bool { return l[i].k < l[j].k })
+		var vs []string
+		for _, e := range l {
+			for len(vs) < e.k {
+				vs = append(vs, "")
+			}
+			vs = append(vs, e.v)
+		}
+		out[tag] = vs
+	}
+	return out
+}
+
 func paramsLit(p map[string]int64) string {
 	var keys []string
 	for k := range p {
@@ -125,6 +181,7 @@ type vReplayCaseT struct {
 	name    string
 	fn      func()
 	vals    map[string][]uint64
+	strs    map[string][]string
 	params  map[string]int
 	repeat  int
 	wantID  string
@@ -144,6 +201,7 @@ func TestVerifReplay(t *testing.T) {
 		for it := 0; it < c.repeat; it++ {
 			vParams = c.params
 			vReset(c.vals)
+			vResetStrs(c.strs)
 			done := make(chan string, 1)
 			go func() {
 				defer func() {
@@ -219,14 +277,15 @@ func RunReplays(repo, harnessDir, pkgSub string, cases []ReplayCase, keepDir str
 		if i := strings.Index(fn, "."); i >= 0 {
 			fn = fn[i+1:]
 		}
-		fmt.Fprintf(&sb, "\t\t{name: %q, fn: %s, vals: %s, params: %s, repeat: %d, wantID: %q, timeout: %d},\n",
-			c.Name, fn, goLit(c.Vals), paramsLit(c.Params), rep, c.WantID, to)
+		fmt.Fprintf(&sb, "\t\t{name: %q, fn: %s, vals: %s, strs: %s, params: %s, repeat: %d, wantID: %q, timeout: %d},\n",
+			c.Name, fn, goLit(c.Vals), strsLit(c.Strs), paramsLit(c.Params), rep, c.WantID, to)
 	}
 	tmpl := replayTmpl
 	if pkgSub == "wsjson" {
 		r := strings.NewReplacer(
 			"vParams = c.params", "websocket.VerifSetParams(c.params)",
 			"vReset(c.vals)", "websocket.VerifReset(c.vals)",
+			"vResetStrs(c.strs)", "websocket.VerifResetStrs(c.strs)",
 			"_, ok := r.(vAssumeViolated); ok", "websocket.VerifIsAssumeViolated(r)",
 			"range vReachedIDs", "range websocket.VerifReached()",
 			"range vFailures", "range websocket.VerifFailures()",
